@@ -43,8 +43,10 @@ def gen_value(rng, cfg):
     if cap == "none":
         return rng.randrange(0, 6)
     r = rng.random()
-    if r < 0.01:
-        return 4294967295                       # u32::MAX
+    if r < 0.01 and (cap >= 2 ** 31 or r < 0.0005):
+        # u32::MAX - almost only with capacities of that magnitude: the concurrent cache sizes its sketch by
+        # entry_count * weighted_size / max_capacity, so one such weight in a small cache allocates a 2^30-word table
+        return 4294967295
     if r < 0.08 and cap < 2 ** 31:
         return cap + rng.randrange(1, 3)        # heavier than the whole cache
     if r < 0.18:
@@ -373,6 +375,9 @@ def gen_window_case(rng, kind, i):
     cfg["cap"] = rng.choice(["none", "none", 8])
     cfg["weigher"] = "none"
     mode = rng.choice(["ttl", "tti", "both"])
+    xbranch = rng.random() < 0.35                # an invalidation inside the window (see below)
+    if xbranch and rng.random() < 0.5:
+        mode = "tti"
     d = rng.choice([3 * SEC, 10 * SEC])
     cfg["ttl"] = d if mode in ("ttl", "both") else "none"
     cfg["tti"] = (d if mode == "tti" else rng.choice([d, 2 * d, d // 2])) if mode in ("tti", "both") else "none"
@@ -386,12 +391,43 @@ def gen_window_case(rng, kind, i):
     lines.append(f"D {a}")
     lines.append(f"G {keys[0]}")                 # refreshes last_accessed only
     lines.append(f"I {keys[2]} 30")              # a younger entry
-    if kind == "sync" and rng.random() < 0.6:
+    if kind == "sync" and rng.random() < (0.15 if xbranch else 0.6):
         lines.append("S")
     b = rng.choice([d - a, d - a + 1, d - a - 1 if d - a > 1 else 1])
     lines.append(f"D {b}")                       # around the write-based deadline of keys 1, 2
+    if xbranch:
+        # invalidate inside the window: an entry that looks expired by its stored timestamps may still be
+        # alive (concurrent cache: a recorded hit not applied yet); invalidated it must stay gone
+        x = rng.choice([keys[0], keys[0], keys[0], keys[1]])      # mostly the entry whose read refreshed it
+        lines += [f"X {x}"] + (["S"] if kind == "sync" else []) + [f"G {x}", f"C {x}", "T"]
     lines += ["T", f"C {keys[0]}", f"C {keys[1]}", "T", f"G {keys[0]}", "T"]
     if kind == "sync":
         lines += ["S", "T"]
     lines += [f"D {rng.choice([1, a])}", "T", f"G {keys[2]}", "T"]
     return (f"{kind[0]}{i}_window", lines)
+
+
+def gen_stuck_excess_case(rng, kind, i):
+    """An update-created excess that one eviction batch cannot clear (a batch worth of zero-weight entries sits at
+    the LRU end), then fresh inserts of every size - oversized ones must never be retained, however popular."""
+    cap = rng.choice([10, 100])
+    cfg = {"kind": kind, "cap": cap, "ttl": "none", "tti": "none", "weigher": "value", "hasher": rng.choice(["id", "mul:11400714819323198485"])}
+    batch = 100 if kind == "unsync" else 500
+    lines = [cfg_line(cfg)]
+    S = ["S"] if kind == "sync" else []
+    grow, big = 5000, 5001
+    lines.append(f"I {grow} {max(cap * 6 // 10, 1)}")       # enables the sketch
+    lines += S
+    for _ in range(rng.choice([0, 1, 3, 5])):
+        lines.append(f"G {big}")                            # the future newcomer becomes popular
+    lines += S
+    nz = batch + rng.choice([-1, 0, 1, 30])
+    for j in range(nz):
+        lines.append(f"I {j} 0")
+    lines += S
+    lines.append(f"G {grow}")                                # the zero-weight entries are now the LRU end
+    lines += S
+    lines.append(f"I {grow} {cap * rng.choice([2, 5])}")     # excess far beyond what the zero-weight prefix frees
+    lines.append(f"I {big} {rng.choice([cap + 1, cap + cap // 2, cap, cap - 1, 2 * cap + 1])}")
+    lines += ["T"] + S + ["T", f"G {big}", f"G {grow}", f"C {big}"] + S + ["T"]
+    return (f"{kind[0]}{i}_stuckexcess{nz}", lines)
